@@ -6,6 +6,8 @@ import os
 import shutil
 import tempfile
 
+import numpy as np
+
 from .. import nncommon as nc
 from .. import tracecommon as tcm
 from ..core import MachineryFailure
@@ -63,6 +65,9 @@ def model_runs(quick):
             ("nnd3", cfg_text("Alpha3", 3, ["nnd"], refmaxlen=3, refmaxsize=2))]
 
 
+_VP = [0]
+
+
 def S(codes, letters):
     return "".join(letters[c] for c in codes)
 
@@ -88,12 +93,19 @@ def replay_doc(ctx, doc, letters):
         elif kind == "hgen":
             vp = [p - 1 for p in doc["vpos"]]
             full = len(vp) == len(x)
-            got = list(D.hamming_neighbors(x, alpha, variable_positions=None if (full and len(x) % 2) else vp))
+            # "iterable of positions": list, tuple, array, set, range-like and single-pass iterables (generator, iterator)
+            _VP[0] += 1
+            form = ("list", "tuple", "generator", "ndarray", "iterator", "set", "map")[_VP[0] % 7]
+            vpo = {"list": lambda: list(vp), "tuple": lambda: tuple(vp), "generator": lambda: (p for p in vp), "ndarray": lambda: np.array(vp, dtype=int),
+                   "iterator": lambda: iter(list(vp)), "set": lambda: set(vp), "map": lambda: map(int, vp)}[form]()
+            if form == "ndarray" and len(vp) == 0:
+                vpo = list(vp)
+            got = list(D.hamming_neighbors(x, alpha, variable_positions=None if (full and len(x) % 2) else vpo))
             want = [S(y, letters) for y in doc["out"]]
             ctx.case(dict(fn="hamming_neighbors", x=x, alphabet=alpha, variable_positions=vp), nontrivial=len(x) > 0)
             if sorted(got) != sorted(want):
                 cl = "duplicate_yield" if len(got) != len(set(got)) else ("missing_neighbour" if set(want) - set(got) else "spurious_neighbour")
-                viol(f"hamming_neighbors/{cl}", f"hamming_neighbors({x!r}, {alpha!r}, {vp}) -> {sorted(got)} want {sorted(want)}"[:500])
+                viol(f"hamming_neighbors/{cl}", f"hamming_neighbors({x!r}, {alpha!r}, variable_positions={form} of {vp}) -> {sorted(got)} want {sorted(want)}"[:500])
         elif kind == "nnn":
             for ham, key in ((False, "lev"), (True, "ham")):
                 nb = (lambda y: D.hamming_neighbors(y, alpha)) if ham else (lambda y: D.levenshtein_neighbors(y, alpha))
